@@ -707,6 +707,22 @@ fn run(name: &str, j: &J) -> Result<bool, String> {
             println!("  {} into {}: image of the type {}, value {} converts to {}", dom, co, img, v, w);
             Ok(img.contains(&w))
         }
+        // C11: the approximate union of two array types must contain the values of both
+        "c11_array_union" => {
+            let a = DataType::array(DataType::integer_interval(0, 10), &[2]);
+            let b = DataType::array(DataType::integer_interval(0, 10), &[3]);
+            let u = a.super_union(&b).map_err(|e| e.to_string())?;
+            let v = Value::array(vec![Value::integer(1), Value::integer(2), Value::integer(3)], [3usize]);
+            println!("  {} union {} = {}; {} in B: {}, in the union: {}", a, b, u, v, b.contains(&v), u.contains(&v));
+            Ok(!(b.contains(&v) && !u.contains(&v)))
+        }
+        // C11: a float type reaching 2^63 is not a subset of the integers (2^63 is not an i64)
+        "c11_float_2p63_subset_integer" => {
+            let f2 = DataType::float_value(9223372036854775808.0);
+            let sub = f2.is_subset_of(&DataType::integer());
+            println!("  {} is_subset_of int: {}", f2, sub);
+            Ok(!sub)
+        }
         _ => Err(format!("unknown replay `{}`", name)),
     }
 }
